@@ -237,5 +237,6 @@ func runC27(c *Ctx) []Obligation {
 		o.unresolved("only %d loops found in package types reachable from the computations; at least 2 (Power, ApproxRoot) were confirmed by reading", nLoops)
 		out = append(out, *o)
 	}
+	out = append(out, rewardOperands(c, P)...)
 	return out
 }
